@@ -105,5 +105,126 @@ ExecTB(x, i) ==
       r == MemU(x, a, IF i.half THEN 2 ELSE 1)
   IN IF ~Ok(r.x) THEN r.x ELSE BranchWritePC(r.x, Add(PCRead(s), LSLw(r.v, 1)))
 
+
+-----------------------------------------------------------------------------
+(* single-register loads and stores (A8.8.62.. LDR/STR families)             *)
+(* i = [k |-> "ls", load, size, signed, t, n, index, add, wback, off, unpriv, lit] *)
+(* off = [t |-> "imm", v |-> word] or [t |-> "reg", m, st, sn]               *)
+UnalignedSupport(s) == s.cfg.arch >= 7 \/ SCTLR_U(s) = 1
+\* PCStoreValue(): the value stored for R15 -- this specification takes the common choice PC (= address + 8 / + 4)
+PCStoreValue(s) == PCRead(s)
+LSOffset(x, off) ==
+  IF off.t = "imm" THEN off.v ELSE ShiftW(Rget(x.s, off.m), off.st, off.sn, CFlag(x))
+ExtendLoaded(v, size, signed) ==
+  IF ~signed THEN v
+  ELSE IF size = 1 THEN SignExtW(v, 8) ELSE IF size = 2 THEN SignExtW(v, 16) ELSE v
+ExecLS(x, i) ==
+  LET s       == x.s
+      base    == IF i.lit THEN AlignPC4(x) ELSE Rget(s, i.n)
+      off     == LSOffset(x, i.off)
+      offaddr == IF i.add THEN Add(base, off) ELSE Sub(base, off)
+      addr    == IF i.index THEN offaddr ELSE base
+      lo2     == Slice(addr, 1, 0)
+      \* before ARMv7 without SCTLR.U: an access that is not naturally aligned yields UNKNOWN data
+      legacyUnk == (~UnalignedSupport(s)) /\ ((i.size = 4 /\ lo2 # 0) \/ (i.size = 2 /\ lo2 % 2 = 1))
+  IN IF i.load
+     THEN LET r  == IF i.unpriv THEN MemU_unpriv(x, addr, i.size) ELSE MemU(x, addr, i.size)
+              x1 == r.x
+          IN IF ~Ok(x1) THEN x1
+             ELSE LET x2   == IF i.wback THEN RsetX(x1, i.n, offaddr) ELSE x1
+                      data == ExtendLoaded(r.v, i.size, i.signed)
+                      unkT == [x2 EXCEPT !.dcR = @ \cup {LookUpRName(i.t, Mode(s))}]
+                  IN IF i.size = 4
+                     THEN IF i.t = 15 THEN (IF lo2 = 0 THEN LoadWritePC(x2, data) ELSE Unpred(x2))
+                          ELSE IF ~legacyUnk THEN RsetX(x2, i.t, data)
+                          ELSE IF IsARM(s.cpsr) THEN RsetX(x2, i.t, RORw(data, 8 * lo2))
+                          ELSE unkT
+                     ELSE IF legacyUnk THEN unkT ELSE RsetX(x2, i.t, data)
+     ELSE LET val == IF i.t = 15 THEN PCStoreValue(s) ELSE Rget(s, i.t)
+              x1  == IF i.unpriv THEN MemUSet_unpriv(x, addr, i.size, val) ELSE MemUSet(x, addr, i.size, val)
+              \* the cells just written hold UNKNOWN data in the legacy unaligned case
+              x1u == IF legacyUnk /\ Ok(x1)
+                     THEN [x1 EXCEPT !.dcM = @ \cup {<<x1.s.mem.w[k][1], x1.s.mem.w[k][2]>> : k \in (Len(x.s.mem.w) + 1)..Len(x1.s.mem.w)}]
+                     ELSE x1
+          IN IF ~Ok(x1u) THEN x1u
+             ELSE IF i.wback THEN RsetX(x1u, i.n, offaddr) ELSE x1u
+
+\* LDRD / STRD:  i = [k |-> "lsd", load, t, t2, n, index, add, wback, off, lit]
+ExecLSD(x, i) ==
+  LET s       == x.s
+      base    == IF i.lit THEN AlignPC4(x) ELSE Rget(s, i.n)
+      off     == LSOffset(x, i.off)
+      offaddr == IF i.add THEN Add(base, off) ELSE Sub(base, off)
+      addr    == IF i.index THEN offaddr ELSE base
+  IN IF i.load
+     THEN LET r1 == MemA(x, addr, 4)
+              r2 == MemA(r1.x, AddInt(addr, 4), 4)
+          IN IF ~Ok(r2.x) THEN [r2.x EXCEPT !.dcR = @ \cup (IF Ok(r1.x) THEN {LookUpRName(i.t, Mode(s))} ELSE {})]
+             ELSE LET x3 == RsetX(RsetX(r2.x, i.t, r1.v), i.t2, r2.v)
+                  IN IF i.wback THEN RsetX(x3, i.n, offaddr) ELSE x3
+     ELSE LET x1 == MemASet(x, addr, 4, Rget(s, i.t))
+              x2 == MemASet(x1, AddInt(addr, 4), 4, Rget(s, i.t2))
+          IN IF ~Ok(x2) THEN x2
+             ELSE IF i.wback THEN RsetX(x2, i.n, offaddr) ELSE x2
+
+-----------------------------------------------------------------------------
+(* block transfers (A8.8.57.. LDM*/STM*, PUSH, POP) *)
+(* i = [k |-> "ldm"/"stm", n, regs, wback, am]   am in {"IA","IB","DA","DB"}, regs = 16-bit mask *)
+RegBit(regs, r) == (regs \div 2^r) % 2
+RegCount(regs)  == PopCnt(regs)
+LowestReg(regs) == LimbLowest(regs)
+StartAddr(base, am, cnt) ==
+  CASE am = "IA" -> base
+    [] am = "IB" -> AddInt(base, 4)
+    [] am = "DA" -> AddInt(base, 4 - 4 * cnt)
+    [] am = "DB" -> AddInt(base, -(4 * cnt))
+FinalBase(base, am, cnt) == IF am \in {"IA", "IB"} THEN AddInt(base, 4 * cnt) ELSE AddInt(base, -(4 * cnt))
+
+\* load registers r..14 from consecutive words; usermode selects the User bank (LDM (user registers))
+RECURSIVE LdmLoop(_, _, _, _, _)
+LdmLoop(x, regs, r, addr, bankmode) ==
+  IF r > 14 \/ ~Ok(x) THEN [x |-> x, addr |-> addr]
+  ELSE IF RegBit(regs, r) = 0 THEN LdmLoop(x, regs, r + 1, addr, bankmode)
+  ELSE LET m == MemA(x, addr, 4) IN
+       IF ~Ok(m.x)
+       THEN \* registers already loaded before the abort are UNKNOWN (B1.9.8); the base is not written back
+            [x |-> [m.x EXCEPT !.dcR = @ \cup {LookUpRName(q, bankmode) : q \in {q \in 0..(r - 1) : RegBit(regs, q) = 1}}],
+             addr |-> addr]
+       ELSE LdmLoop([m.x EXCEPT !.s = SetRmode(@, r, bankmode, m.v)], regs, r + 1, AddInt(addr, 4), bankmode)
+ExecLDM(x, i) ==
+  LET s    == x.s
+      cnt  == RegCount(i.regs)
+      base == Rget(s, i.n)
+      l    == LdmLoop(x, i.regs, 0, StartAddr(base, i.am, cnt), Mode(s))
+  IN IF ~Ok(l.x) THEN l.x
+     ELSE LET pcr == IF RegBit(i.regs, 15) = 1 THEN MemA(l.x, l.addr, 4) ELSE [x |-> l.x, v |-> Zero]
+          IN IF ~Ok(pcr.x)
+             THEN [pcr.x EXCEPT !.dcR = @ \cup {LookUpRName(q, Mode(s)) : q \in {q \in 0..14 : RegBit(i.regs, q) = 1}}]
+             ELSE LET x1 == IF RegBit(i.regs, 15) = 1 THEN LoadWritePC(pcr.x, pcr.v) ELSE pcr.x
+                      inlist == RegBit(i.regs, i.n) = 1
+                  IN IF i.wback /\ ~inlist THEN RsetX(x1, i.n, FinalBase(base, i.am, cnt))
+                     ELSE IF i.wback /\ inlist THEN [x1 EXCEPT !.dcR = @ \cup {LookUpRName(i.n, Mode(s))}]
+                     ELSE x1
+
+RECURSIVE StmLoop(_, _, _, _, _, _)
+StmLoop(x, i, r, addr, s0, bankmode) ==
+  IF r > 15 \/ ~Ok(x) THEN x
+  ELSE IF RegBit(i.regs, r) = 0 THEN StmLoop(x, i, r + 1, addr, s0, bankmode)
+  ELSE LET val == IF r = 15 THEN PCStoreValue(s0) ELSE Rmode(s0, r, bankmode)
+           unk == r = i.n /\ i.wback /\ r # LowestReg(i.regs)        \* stored base value is UNKNOWN
+           x1  == MemASet(x, addr, 4, val)
+           x2  == IF unk /\ Ok(x1) THEN [x1 EXCEPT !.dcM = @ \cup {<<x1.s.mem.w[Len(x1.s.mem.w) - k][1],
+                                                                    x1.s.mem.w[Len(x1.s.mem.w) - k][2]>> :
+                                                                   k \in 0..(Len(x1.s.mem.w) - Len(x.s.mem.w) - 1)}]
+                  ELSE x1
+       IN StmLoop(x2, i, r + 1, AddInt(addr, 4), s0, bankmode)
+ExecSTM(x, i) ==
+  LET s    == x.s
+      cnt  == RegCount(i.regs)
+      base == Rget(s, i.n)
+      x1   == StmLoop(x, i, 0, StartAddr(base, i.am, cnt), s, Mode(s))
+  IN IF ~Ok(x1) THEN x1
+     ELSE IF i.wback THEN RsetX(x1, i.n, FinalBase(base, i.am, cnt)) ELSE x1
+
 ExecIT(x, i) == [x EXCEPT !.s.cpsr = SetIT(@, i.fc * 16 + i.mask)]
 =============================================================================
